@@ -88,11 +88,12 @@ def configure(format_stub: bool = True, live_lru: bool = False) -> None:
         inner = regs.get(format)
 
         def _format(obj, spec=''):
-            # S13: formatting a symbolic non-string value (or a container that may hold one) would realise it
-            # and fork without bound; pjrpc only does this while building exception / log messages.
+            # S13: formatting anything but a string or a concrete scalar (symbolic numbers, containers, views,
+            # exceptions, message objects -- all of which may hold symbolic leaves) would deep-realise it and fork
+            # without bound; pjrpc only does this while building exception / log messages.
             with ch.tracers.NoTracing():
-                stub = (isinstance(obj, CrossHairValue) and not isinstance(obj, AnySymbolicStr)) \
-                    or type(obj) in (list, dict, tuple)
+                passthrough = isinstance(obj, (str, AnySymbolicStr)) or type(obj) in (int, float, bool, type(None))
+                stub = not passthrough
             if stub:
                 return '<value>'
             if inner is not None:
@@ -124,8 +125,7 @@ class Env:
         if name in self.leaves:
             return self.leaves[name]
         if self.symbolic:
-            ch = _CH
-            v = ch.core.proxy_for_type(typ, name)
+            v = _make_symbolic(typ, name)
         else:
             if name not in self.model:
                 raise Divergence(f'leaf {name!r} not in model')
@@ -168,6 +168,28 @@ class Env:
 
     def reached(self) -> None:
         self.reached_count += 1
+
+
+def _make_symbolic(typ: type, name: str) -> Any:
+    """
+    Build the z3-backed proxy directly.  crosshair.core.proxy_for_type goes through `make_concrete_or_symbolic`,
+    which may fork into a "premature realize" branch (a ParallelNode enumerating concrete values): sound, but it turns a
+    finite path tree into an endless enumeration, so it is bypassed here.
+    """
+    ch = _CH
+    from crosshair.libimpl import builtinslib as bl
+    with ch.tracers.NoTracing():
+        space = ch.statespace.context_statespace()
+        smt_name = name + space.uniq()
+        if typ is int:
+            return bl.SymbolicBoundedInt(smt_name, int)
+        if typ is bool:
+            return bl.SymbolicBool(smt_name, bool)
+        if typ is str:
+            return bl.LazyIntSymbolicStr(smt_name, str)
+        if typ is float:
+            return bl.make_float(smt_name, float)
+    raise TypeError(typ)
 
 
 def _encode_leaf(v: Any) -> Any:
